@@ -997,7 +997,8 @@ fn json_ctx(d: &[i64]) -> Value {
     }
 }
 
-/// Output: `0 <shape of the expression's value> <tojson> <tojson(indent=2)> <.json> <.js> <.yaml>` or `1 code` when the
+/// Output: `0 <shape of the expression's value> <tojson> <tojson(indent=2)> <.json> <.js> <.yaml> <autoescape block>
+/// <inside a document> <variable form in .json>` or `1 code` when the
 /// expression itself does not evaluate.
 fn run_json_expr(env: &Environment, toks: &[String], start: usize) -> Vec<String> {
     let mut t = Toks { v: toks, i: start };
@@ -1022,6 +1023,18 @@ fn run_json_expr(env: &Environment, toks: &[String], start: usize) -> Vec<String
     leg("b.txt", format!("{{{{ ({expr})|tojson(indent=2) }}}}"));
     for name in ["c.json", "c.js", "c.yaml"] {
         leg(name, format!("{{{{ {expr} }}}}"));
+    }
+    // the same under an explicit block, and inside a JSON document written by the template
+    leg("d.txt", format!("{{% autoescape \"json\" %}}{{{{ {expr} }}}}{{% endautoescape %}}"));
+    leg("e.json", format!("{{\"k\": {{{{ {expr} }}}}, \"l\": [{{{{ {expr} }}}}, 1]}}"));
+    // variable form: the value of the expression (evaluated afresh) handed in through the context
+    let var = env.compile_expression(&expr).and_then(|e| e.eval(json_ctx(&d))).unwrap_or(Value::UNDEFINED);
+    match std::panic::catch_unwind(std::panic::AssertUnwindSafe(|| env.render_named_str("f.json", "{{ x }}", context! { x => var }))) {
+        Ok(r) => push_result(&mut o, r),
+        Err(_) => {
+            o.push("1".into());
+            o.push("98".into());
+        }
     }
     o
 }
